@@ -24,9 +24,9 @@ theorem mul_mono (i q st : Int) (h : i ≤ q) (hst : 0 ≤ st) : i * st ≤ q * 
 /-! ## the representation invariant (sequence.rs:75-85) -/
 
 /-- midpoints are the cumulative lengths of the parts, every part but the last is finite, no part is empty,
-the total length fits `usize` -/
+the total length (the finite parts in front of an infinite last part) fits `usize` -/
 def chainOk : List Rep → List Nat → Nat → Prop
-  | [r], [], acc => (match r.len with | .fin n => acc + n < USIZE ∧ 0 < n | .inf => True | .panic _ => False)
+  | [r], [], acc => (match r.len with | .fin n => acc + n < USIZE ∧ 0 < n | .inf => acc < USIZE | .panic _ => False)
   | r :: rs, m :: ms, acc => (∃ n, r.len = .fin n ∧ 0 < n ∧ m = acc + n) ∧ chainOk rs ms m
   | _, _, _ => False
 
@@ -781,7 +781,10 @@ theorem wfAll_append : ∀ (l1 l2 : List Rep), wfAll l1 → wfAll l2 → wfAll (
 /-- shifting the midpoints of a well-formed chain by `T` -/
 theorem chainOk_shift : ∀ (parts : List Rep) (mids : List Nat) (acc T : Nat),
     chainOk parts mids acc →
-    (match lastLen parts with | .fin l => l + mids.getLast?.getD acc + T < USIZE | _ => True) →
+    (match lastLen parts with
+     | .fin l => l + mids.getLast?.getD acc + T < USIZE
+     | .inf => mids.getLast?.getD acc + T < USIZE
+     | .panic _ => True) →
     chainOk parts (mids.map (· + T)) (acc + T)
   | [], _, _, _, h, _ => by simp [chainOk] at h
   | [r], [], acc, T, h, hb => by
@@ -789,7 +792,7 @@ theorem chainOk_shift : ∀ (parts : List Rep) (mids : List Nat) (acc T : Nat),
       simp only [lastLen] at hb
       cases hr : r.len with
       | fin n => rw [hr] at h hb; simp only [List.getLast?_nil, Option.getD_none] at hb; simp only [] at h ⊢; omega
-      | inf => trivial
+      | inf => rw [hr] at h hb; simp only [List.getLast?_nil, Option.getD_none] at hb; simp only [] at h ⊢; omega
       | panic _ => rw [hr] at h; exact h
   | [r], m :: ms, _, _, h, _ => by simp [chainOk] at h
   | r :: r2 :: rs, [], _, _, h, _ => by simp [chainOk] at h
@@ -829,7 +832,7 @@ theorem chainOk_append : ∀ (parts0 : List Rep) (mids0 : List Nat) (acc : Nat) 
 theorem chainOk_last : ∀ (parts : List Rep) (mids : List Nat) (acc : Nat), chainOk parts mids acc →
     (match lastLen parts with
      | .fin l => 0 < l ∧ l + mids.getLast?.getD acc < USIZE
-     | .inf => True
+     | .inf => mids.getLast?.getD acc < USIZE
      | .panic _ => False)
   | [], _, _, h => by simp [chainOk] at h
   | [r], [], acc, h => by
@@ -837,7 +840,7 @@ theorem chainOk_last : ∀ (parts : List Rep) (mids : List Nat) (acc : Nat), cha
       simp only [lastLen]
       cases hr : r.len with
       | fin n => rw [hr] at h; simp only [List.getLast?_nil, Option.getD_none] at h ⊢; omega
-      | inf => trivial
+      | inf => rw [hr] at h; simp only [List.getLast?_nil, Option.getD_none] at h ⊢; exact h
       | panic _ => rw [hr] at h; exact h
   | [r], m :: ms, _, h => by simp [chainOk] at h
   | r :: r2 :: rs, [], _, h => by simp [chainOk] at h
@@ -860,20 +863,23 @@ theorem chain_len_eq (parts : List Rep) (mids : List Nat) (n : Nat) (h : (Rep.ch
 /-- what `chain` guarantees of its operands before splicing -/
 def chainPre (a b : Rep) (len0 : Nat) : Prop :=
   a.wf ∧ b.wf ∧ a.len = .fin len0 ∧ 0 < len0 ∧
-  (match b.len with | .fin n => 0 < n ∧ len0 + n < USIZE | .inf => True | .panic _ => False)
+  (match b.len with | .fin n => 0 < n ∧ len0 + n < USIZE | .inf => len0 + b.finPrefix < USIZE | .panic _ => False)
 
 theorem chainOk_single (b : Rep) (len0 : Nat)
-    (h : match b.len with | .fin n => 0 < n ∧ len0 + n < USIZE | .inf => True | .panic _ => False) :
+    (h : match b.len with | .fin n => 0 < n ∧ len0 + n < USIZE | .inf => len0 + b.finPrefix < USIZE | .panic _ => False) :
     chainOk [b] [] len0 := by
   simp only [chainOk]
   cases hb : b.len with
   | fin n => rw [hb] at h; simp only [] at h ⊢; omega
-  | inf => trivial
+  | inf => rw [hb] at h; simp only [] at h ⊢; omega
   | panic _ => rw [hb] at h; exact h
 
 theorem chainOk_of_chain_right (parts1 : List Rep) (mids1 : List Nat) (len0 : Nat)
     (hb : (Rep.chain parts1 mids1).wf)
-    (h : match (Rep.chain parts1 mids1).len with | .fin n => 0 < n ∧ len0 + n < USIZE | .inf => True | .panic _ => False) :
+    (h : match (Rep.chain parts1 mids1).len with
+      | .fin n => 0 < n ∧ len0 + n < USIZE
+      | .inf => len0 + (Rep.chain parts1 mids1).finPrefix < USIZE
+      | .panic _ => False) :
     chainOk parts1 (mids1.map (· + len0)) len0 := by
   simp only [Rep.wf] at hb
   have := chainOk_shift parts1 mids1 0 len0 hb.2.1 (by
@@ -883,7 +889,11 @@ theorem chainOk_of_chain_right (parts1 : List Rep) (mids1 : List Nat) (len0 : Na
       cases hm : mids1.getLast? with
       | none => simp [Rep.len, hl, hm] at h
       | some m => simp only [Rep.len, hl, hm] at h; simp only [Option.getD_some]; omega
-    | inf => trivial
+    | inf =>
+      simp only []
+      cases hm : mids1.getLast? with
+      | none => simp [Rep.len, hl, hm] at h
+      | some m => simp only [Rep.len, hl, hm, Rep.finPrefix, Option.getD_some] at h; simp only [Option.getD_some]; omega
     | panic _ => trivial)
   simpa using this
 
@@ -975,7 +985,7 @@ theorem mkChain_wf (a b : Rep) (ha : a.wf) (hb : b.wf) :
       · simp only [hov, decide_true, if_true]
         right; right; exact ⟨n, a2, b2, hov⟩
       · simp only [hov, decide_false, Bool.false_eq_true, if_false]
-        exact chainOf_wf a b n ⟨ha, hb, a1, by omega, by rw [b1]; trivial⟩
+        exact chainOf_wf a b n ⟨ha, hb, a1, by omega, by rw [b1]; simp only []; omega⟩
   · rw [a1, b1]
     simp only [isEmpty_inf a a1, isEmpty_fin b m b1]
     by_cases hm : m = 0
@@ -1287,5 +1297,331 @@ theorem enumerate_spec (r : Rep) (h : r.wf) (s o : Int) :
   · intro i
     simp only [den, denList, Sem.zip, List.map, count2, elemMap, PFn.app, tupAll]
     cases (den r).el i <;> rfl
+
+
+/-! ## midpoint bound, scans (take_while / skip_until / nth), to_stack, swap, eq -/
+/-- every midpoint of a well-formed chain (finite or with an infinite last part) fits `usize`, and they increase -/
+theorem chainOk_fit : ∀ (parts : List Rep) (mids : List Nat) (acc : Nat), chainOk parts mids acc →
+    acc < USIZE ∧ ∀ m ∈ mids, acc < m ∧ m < USIZE
+  | [], _, _, h => by simp [chainOk] at h
+  | [r], [], acc, h => by
+      simp only [chainOk] at h
+      refine ⟨?_, by simp⟩
+      cases hr : r.len with
+      | fin n => rw [hr] at h; simp only [] at h; omega
+      | inf => rw [hr] at h; exact h
+      | panic _ => rw [hr] at h; exact h.elim
+  | [r], m :: ms, _, h => by simp [chainOk] at h
+  | r :: r2 :: rs, [], _, h => by simp [chainOk] at h
+  | r :: r2 :: rs, m :: ms, acc, h => by
+      simp only [chainOk] at h
+      obtain ⟨⟨n, _, hpos, hm⟩, hrest⟩ := h
+      obtain ⟨h1, h2⟩ := chainOk_fit (r2 :: rs) ms m hrest
+      refine ⟨by omega, ?_⟩
+      intro x hx
+      simp only [List.mem_cons] at hx
+      rcases hx with rfl | hx
+      · omega
+      · have := h2 x hx; omega
+
+theorem atEnd_valid (o : Option Nat) (i : Nat) (h : optValid o i) : atEnd o i = false := by
+  cases o with
+  | none => rfl
+  | some n => simp only [optValid] at h; simp [atEnd]; omega
+
+theorem lenOpt_toLen (o : Option Nat) : lenOpt (toLen o) = o := by cases o <;> rfl
+
+/-- `k` is examined and passed over by the scan: an int element on the non-stopping side of the predicate -/
+def passes (d : Sem) (c : Int) (stopOn : Bool) (k : Nat) : Prop :=
+  ∃ x, d.el k = .ok (.int x) ∧ decide (x < c) ≠ stopOn
+
+/-- `j` stops the scan -/
+def stops (d : Sem) (c : Int) (stopOn : Bool) (j : Nat) : Prop :=
+  ∃ x, d.el j = .ok (.int x) ∧ decide (x < c) = stopOn
+
+/-- the scan of `take_while`/`skip_until` stops at the first stopping index `j`, having examined `j - i + 1`
+elements (one search permit each): it succeeds with more fuel than `j - i` … -/
+theorem scan_found (r : Rep) (h : r.wf) (c : Int) (stopOn : Bool) (j : Nat) (hv : (den r).valid j)
+    (hj : stops (den r) c stopOn j) :
+    ∀ (fuel i : Nat), i ≤ j → (∀ k, i ≤ k → k < j → passes (den r) c stopOn k) → j - i < fuel →
+      scanLt r c stopOn (den r).len i fuel = .ok (some j)
+  | 0, _, _, _, hf => by omega
+  | fuel + 1, i, hij, hp, hf => by
+      have hvi : (den r).valid i := by
+        unfold Sem.valid optValid at *
+        cases hl : (den r).len with
+        | none => trivial
+        | some n => rw [hl] at hv; simp only [] at hv ⊢; omega
+      have hlim := atEnd_valid _ _ hvi
+      simp only [scanLt, hlim, Bool.false_eq_true, if_false, get_den r h i hvi]
+      by_cases e : i = j
+      · subst e
+        obtain ⟨x, hx, hs⟩ := hj
+        simp only [hx, hs, if_true]
+      · obtain ⟨x, hx, hs⟩ := hp i (Nat.le_refl _) (by omega)
+        simp only [hx, hs, if_false]
+        exact scan_found r h c stopOn j hv hj fuel (i + 1) (by omega) (fun k hk1 hk2 => hp k (by omega) hk2) (by omega)
+
+/-- … and runs out of permits with `j - i` or fewer -/
+theorem scan_out_of_fuel (r : Rep) (h : r.wf) (c : Int) (stopOn : Bool) (j : Nat) (hv : (den r).valid j) :
+    ∀ (fuel i : Nat), i ≤ j → (∀ k, i ≤ k → k < j → passes (den r) c stopOn k) → fuel ≤ j - i →
+      scanLt r c stopOn (den r).len i fuel = .panic "out of fuel"
+  | 0, _, _, _, _ => rfl
+  | fuel + 1, i, hij, hp, hf => by
+      have hvi : (den r).valid i := by
+        unfold Sem.valid optValid at *
+        cases hl : (den r).len with
+        | none => trivial
+        | some n => rw [hl] at hv; simp only [] at hv ⊢; omega
+      have hlim := atEnd_valid _ _ hvi
+      simp only [scanLt, hlim, Bool.false_eq_true, if_false, get_den r h i hvi]
+      obtain ⟨x, hx, hs⟩ := hp i (Nat.le_refl _) (by omega)
+      simp only [hx, hs, if_false]
+      exact scan_out_of_fuel r h c stopOn j hv fuel (i + 1) (by omega) (fun k hk1 hk2 => hp k (by omega) hk2) (by omega)
+
+/-- no stopping element in a finite sequence: the scan reaches the end -/
+theorem scan_end (r : Rep) (h : r.wf) (c : Int) (stopOn : Bool) (n : Nat) (hn : (den r).len = some n) :
+    ∀ (fuel i : Nat), i ≤ n → (∀ k, i ≤ k → k < n → passes (den r) c stopOn k) → n - i < fuel →
+      scanLt r c stopOn (den r).len i fuel = .ok none
+  | 0, _, _, _, hf => by omega
+  | fuel + 1, i, hin, hp, hf => by
+      by_cases e : i = n
+      · subst e; simp [scanLt, hn, atEnd]
+      · have hvi : (den r).valid i := by simp only [Sem.valid, optValid, hn]; omega
+        have hlim := atEnd_valid _ _ hvi
+        obtain ⟨x, hx, hs⟩ := hp i (Nat.le_refl _) (by omega)
+        simp only [scanLt, hlim, Bool.false_eq_true, if_false, get_den r h i hvi, hx, hs]
+        exact scan_end r h c stopOn n hn fuel (i + 1) (by omega) (fun k hk1 hk2 => hp k (by omega) hk2) (by omega)
+
+
+theorem takeWhile_unfold (r : Rep) (h : r.wf) (c : Int) (fuel : Nat) :
+    takeWhileLtB r c fuel = (match scanLt r c false (den r).len 0 fuel with
+      | .ok (some i) => sliceB r 0 (some i)
+      | .ok none => sliceB r 0 (den r).len
+      | .err m => .err m
+      | .panic m => .panic m) := by
+  unfold takeWhileLtB
+  rcases len_cases r h with ⟨n, h1, h2⟩ | ⟨h1, h2⟩ <;> rw [h1, h2] <;> rfl
+
+theorem skipUntil_unfold (r : Rep) (h : r.wf) (c : Int) (fuel : Nat) :
+    skipUntilLtB r c fuel = (match scanLt r c true (den r).len 0 fuel with
+      | .ok (some i) => sliceB r i none
+      | .ok none => sliceB r ((den r).len.getD 0) none
+      | .err m => .err m
+      | .panic m => .panic m) := by
+  unfold skipUntilLtB
+  rcases len_cases r h with ⟨n, h1, h2⟩ | ⟨h1, h2⟩ <;> rw [h1, h2] <;> rfl
+
+/-- forward scan of `nth` over the elements `xs` that remain from position `i` -/
+theorem nthFwd_list (r : Rep) (h : r.wf) (c : Int) (n : Nat) (hn : (den r).len = some n) :
+    ∀ (xs : List Int) (i left fuel : Nat), i + xs.length = n →
+      (∀ k (hk : k < xs.length), (den r).el (i + k) = .ok (.int xs[k])) → xs.length < fuel →
+      nthFwd r c (some n) i left fuel = .opt (((xs.filter (fun x => decide (x < c)))[left]?).map Val.int)
+  | [], i, left, fuel, hi, _, hf => by
+      cases fuel with
+      | zero => simp at hf
+      | succ f =>
+        have : atEnd (some n) i = true := by simp [atEnd]; simp at hi; omega
+        simp [nthFwd, this]
+  | x :: t, i, left, fuel, hi, hel, hf => by
+      cases fuel with
+      | zero => simp at hf
+      | succ f =>
+        simp only [List.length_cons] at hi hf
+        have hvi : (den r).valid i := by simp only [Sem.valid, optValid, hn]; omega
+        have hlim := atEnd_valid (some n) i (by simp only [optValid]; omega)
+        have h0 := hel 0 (by simp)
+        simp only [Nat.add_zero, List.getElem_cons_zero] at h0
+        have ih := fun l => nthFwd_list r h c n hn t (i + 1) l f (by omega)
+          (fun k hk => by
+            have := hel (k + 1) (by simp; omega)
+            simp only [List.getElem_cons_succ] at this
+            rw [show i + 1 + k = i + (k + 1) by omega]; exact this) (by omega)
+        simp only [nthFwd, hlim, Bool.false_eq_true, if_false, get_den r h i hvi, h0]
+        by_cases hx : x < c
+        · simp only [hx, if_true, List.filter, decide_true]
+          cases left with
+          | zero => simp
+          | succ l => simp only [Nat.add_one_ne_zero, if_false, Nat.add_sub_cancel, ih l]; simp
+        · simp only [hx, if_false, List.filter, decide_false, ih left]
+
+/-- reversed scan of `nth` over the first `ys.length` elements, listed from the last one down -/
+theorem nthBwd_list (r : Rep) (h : r.wf) (c : Int) (n : Nat) (hn : (den r).len = some n) :
+    ∀ (ys : List Int) (left : Nat), ys.length ≤ n →
+      (∀ j (hj : j < ys.length), (den r).el (ys.length - 1 - j) = .ok (.int ys[j])) →
+      nthBwd r c ys.length left = .opt (((ys.filter (fun x => decide (x < c)))[left]?).map Val.int)
+  | [], left, _, _ => by simp [nthBwd]
+  | y :: t, left, hle, hel => by
+      simp only [List.length_cons] at hle
+      have hv : (den r).valid t.length := by simp only [Sem.valid, optValid, hn]; omega
+      have h0 := hel 0 (by simp)
+      simp only [List.length_cons, Nat.add_sub_cancel, Nat.sub_zero, List.getElem_cons_zero] at h0
+      have ih := fun l => nthBwd_list r h c n hn t l (by omega) (fun j hj => by
+        have := hel (j + 1) (by simp; omega)
+        simp only [List.length_cons, List.getElem_cons_succ] at this
+        rw [show t.length - 1 - j = t.length + 1 - 1 - (j + 1) by omega]; exact this)
+      simp only [List.length_cons, nthBwd, get_den r h _ hv, h0]
+      by_cases hx : y < c
+      · simp only [hx, if_true, List.filter, decide_true]
+        cases left with
+        | zero => simp
+        | succ l => simp only [Nat.add_one_ne_zero, if_false, Nat.add_sub_cancel, ih l]; simp
+      · simp only [hx, if_false, List.filter, decide_false, ih left]
+
+theorem nth_unfold_fin (r : Rep) (h : r.wf) (n : Nat) (hn : (den r).len = some n) (k c : Int) (fuel : Nat) :
+    nthLtB r k c fuel = (if k < 0 then nthBwd r c n (-k - 1).toNat else nthFwd r c (some n) 0 k.toNat fuel) := by
+  have hl : r.len = .fin n := by rw [len_den r h, hn]; rfl
+  unfold nthLtB; rw [hl]; rfl
+
+theorem nth_inf_negative (r : Rep) (h : r.wf) (hn : (den r).len = none) (k c : Int) (fuel : Nat) (hk : k < 0) :
+    nthLtB r k c fuel = .err "negative match index cannot be used with infinite sequence" := by
+  have hl : r.len = .inf := by rw [len_den r h, hn]; rfl
+  unfold nthLtB; rw [hl]; simp [hk]
+
+/-- `to_stack` pushes the elements of the denoted list in order (the last element ends on top) -/
+theorem toStack_spec (r : Rep) (h : r.wf) :
+    (∀ n, (den r).len = some n → toStackB r = (match tupAll (elemsFrom (den r) 0 n) with
+      | .ok vs => .stack vs
+      | .err m => .err m
+      | .panic m => .panic m)) ∧
+    ((den r).len = none → toStackB r = infErr) := by
+  refine ⟨fun n hn => ?_, fun hn => ?_⟩
+  · have hl : r.len = .fin n := by rw [len_den r h, hn]; rfl
+    simp only [toStackB, hl, collect_den r h n hn]
+    cases tupAll (elemsFrom (den r) 0 n) <;> rfl
+  · have hl : r.len = .inf := by rw [len_den r h, hn]; rfl
+    simp only [toStackB, hl]
+
+/-- the list-level result of `swap` for distinct normalised positions `lo < hi` -/
+def swapResult (d : Sem) (n lo hi : Nat) : V :=
+  match tupAll (elemsFrom d 0 lo) with
+  | .err m => .err m
+  | .panic m => .panic m
+  | .ok pre =>
+  match d.el hi with
+  | .err m => .err m
+  | .panic m => .panic m
+  | .ok vhi =>
+  match tupAll (elemsFrom d (lo + 1) (hi - (lo + 1))) with
+  | .err m => .err m
+  | .panic m => .panic m
+  | .ok mid =>
+  match d.el lo with
+  | .err m => .err m
+  | .panic m => .panic m
+  | .ok vlo =>
+  match tupAll (elemsFrom d (hi + 1) (n - (hi + 1))) with
+  | .err m => .err m
+  | .panic m => .panic m
+  | .ok post => .seq (Rep.mkArray (pre ++ [vhi] ++ mid ++ [vlo] ++ post))
+
+/-- `swap`: both indices are normalised first (an out-of-range one is an error value, the first one wins), equal
+positions return the sequence itself, and otherwise the smaller and larger *normalised* positions delimit the
+three copied runs with the two elements exchanged -/
+theorem swap_spec (r : Rep) (h : r.wf) (n : Nat) (hn : (den r).len = some n) (i j : Int) :
+    swapB r i j = (match valueToIdx (.fin n) i with
+      | .err m => .err m
+      | .panic m => .panic m
+      | .ok i1 => match valueToIdx (.fin n) j with
+        | .err m => .err m
+        | .panic m => .panic m
+        | .ok i2 => if i1 = i2 then .seq r else swapResult (den r) n (min i1 i2) (max i1 i2)) := by
+  have hl : r.len = .fin n := by rw [len_den r h, hn]; rfl
+  simp only [swapB, hl]
+  cases hi : valueToIdx (.fin n) i with
+  | err m => rfl
+  | panic m => rfl
+  | ok i1 =>
+    cases hj : valueToIdx (.fin n) j with
+    | err m => rfl
+    | panic m => rfl
+    | ok i2 =>
+      have h1 : i1 < n := valueToIdx_valid (some n) i i1 hi
+      have h2 : i2 < n := valueToIdx_valid (some n) j i2 hj
+      simp only []
+      by_cases e : i1 = i2
+      · simp only [e, if_true]
+      · simp only [e, if_false]
+        have hv : ∀ a c, a + c ≤ n → ∀ k, k < c → (den r).valid (a + k) := by
+          intro a c hac k hk; simp only [Sem.valid, optValid, hn]; omega
+        have hlo : min i1 i2 < n := by omega
+        have hhi : max i1 i2 < n := by omega
+        have hlt : min i1 i2 < max i1 i2 := by omega
+        rw [collectFrom_den r h (min i1 i2) 0 (hv 0 _ (by omega)),
+          collectFrom_den r h (max i1 i2 - (min i1 i2 + 1)) (min i1 i2 + 1) (hv _ _ (by omega)),
+          collectFrom_den r h (n - (max i1 i2 + 1)) (max i1 i2 + 1) (hv _ _ (by omega)),
+          get_den r h (max i1 i2) (by simp only [Sem.valid, optValid, hn]; exact hhi),
+          get_den r h (min i1 i2) (by simp only [Sem.valid, optValid, hn]; exact hlo)]
+        unfold swapResult liftList
+        cases tupAll (elemsFrom (den r) 0 (min i1 i2)) <;> try rfl
+        cases (den r).el (max i1 i2) <;> try rfl
+        cases tupAll (elemsFrom (den r) (min i1 i2 + 1) (max i1 i2 - (min i1 i2 + 1))) <;> try rfl
+        cases (den r).el (min i1 i2) <;> try rfl
+        cases tupAll (elemsFrom (den r) (max i1 i2 + 1) (n - (max i1 i2 + 1))) <;> rfl
+
+/-- the comparison loop of `eq` over the remaining elements `xs` / `ys` of two sequences of equal length -/
+theorem eqScan_list (a b : Rep) (ha : a.wf) (hb : b.wf) (n : Nat) (hna : (den a).len = some n)
+    (hnb : (den b).len = some n) :
+    ∀ (xs ys : List Val) (i fuel : Nat), xs.length = ys.length → i + xs.length = n →
+      (∀ k (hk : k < xs.length), (den a).el (i + k) = .ok xs[k]) →
+      (∀ k (hk : k < ys.length), (den b).el (i + k) = .ok ys[k]) → xs.length < fuel →
+      eqScan a b (some n) i fuel = .bool (xs == ys)
+  | [], [], i, fuel, _, hi, _, _, hf => by
+      cases fuel with
+      | zero => simp at hf
+      | succ f =>
+        have : atEnd (some n) i = true := by simp [atEnd]; simp at hi; omega
+        simp [eqScan, this]
+  | [], _ :: _, _, _, hl, _, _, _, _ => by simp at hl
+  | _ :: _, [], _, _, hl, _, _, _, _ => by simp at hl
+  | x :: t, y :: u, i, fuel, hl, hi, hxa, hyb, hf => by
+      cases fuel with
+      | zero => simp at hf
+      | succ f =>
+        simp only [List.length_cons] at hl hi hf
+        have hva : (den a).valid i := by simp only [Sem.valid, optValid, hna]; omega
+        have hvb : (den b).valid i := by simp only [Sem.valid, optValid, hnb]; omega
+        have hlim := atEnd_valid (some n) i (by simp only [optValid]; omega)
+        have hx0 := hxa 0 (by simp)
+        have hy0 := hyb 0 (by simp)
+        simp only [Nat.add_zero, List.getElem_cons_zero] at hx0 hy0
+        have ih := eqScan_list a b ha hb n hna hnb t u (i + 1) f (by omega) (by omega)
+          (fun k hk => by
+            have := hxa (k + 1) (by simp; omega)
+            simp only [List.getElem_cons_succ] at this
+            rw [show i + 1 + k = i + (k + 1) by omega]; exact this)
+          (fun k hk => by
+            have := hyb (k + 1) (by simp; omega)
+            simp only [List.getElem_cons_succ] at this
+            rw [show i + 1 + k = i + (k + 1) by omega]; exact this) (by omega)
+        simp only [eqScan, hlim, Bool.false_eq_true, if_false, get_den a ha i hva, get_den b hb i hvb, hx0, hy0]
+        have hc : (x :: t == y :: u) = (x == y && t == u) := rfl
+        rw [hc]
+        by_cases e : (x == y) = true
+        · simp only [e, if_true, ih, Bool.true_and]
+        · simp only [e, if_false]
+          have : (x == y) = false := by simpa using e
+          simp [this]
+
+/-- sequences of different lengths (finite/finite, or finite/infinite) are unequal without comparing elements -/
+theorem eq_len_differ (a b : Rep) (ha : a.wf) (hb : b.wf) (fuel : Nat) (hd : (den a).len ≠ (den b).len) :
+    eqB a b fuel = .bool false := by
+  unfold eqB
+  rw [len_den a ha, len_den b hb]
+  cases h1 : (den a).len <;> cases h2 : (den b).len <;> simp_all [toLen, Len.same]
+
+/-- `eq` of two finite sequences of the same length whose elements evaluate to `xs` and `ys`: list equality -/
+theorem eq_list (a b : Rep) (ha : a.wf) (hb : b.wf) (xs ys : List Val) (hl : xs.length = ys.length)
+    (hna : (den a).len = some xs.length) (hnb : (den b).len = some ys.length)
+    (hxa : ∀ k (hk : k < xs.length), (den a).el k = .ok xs[k])
+    (hyb : ∀ k (hk : k < ys.length), (den b).el k = .ok ys[k]) (fuel : Nat) (hf : xs.length < fuel) :
+    eqB a b fuel = .bool (xs == ys) := by
+  have h1 : a.len = .fin xs.length := by rw [len_den a ha, hna]; rfl
+  have h2 : b.len = .fin xs.length := by rw [len_den b hb, hnb, hl]; rfl
+  unfold eqB
+  rw [h1, h2]
+  simp only [Len.same, beq_self_eq_true, if_true, lenOpt]
+  exact eqScan_list a b ha hb xs.length hna (by rw [hnb, hl]) xs ys 0 fuel hl (by omega)
+    (fun k hk => by simpa using hxa k hk) (fun k hk => by simpa using hyb k hk) hf
 
 end XrayModel.Seq
